@@ -622,9 +622,11 @@ def route_config(route, options, workdir=None):
         return seen["config"]
 
 
-def generate(route, srcdir, options, shuffle=None):
+def generate(route, srcdir, options, shuffle=None, uris_order="sorted"):
     """Run a whole generation of every schema in `srcdir` into a fresh directory
-    and return {relative file path: content}.  `route` in api|cli|file."""
+    and return {relative file path: content}.  `route` in api|cli|file.
+    `uris_order` (api route only): the list order in which the same set of source
+    URIs is handed to ResourceTransformer.process: sorted | reversed."""
     import logging
     import warnings
 
@@ -643,6 +645,8 @@ def generate(route, srcdir, options, shuffle=None):
             if route == "api":
                 cfg = _api_config(options)
                 uris = sorted(p.resolve().as_uri() for p in Path(srcdir).glob("*.xsd"))
+                if uris_order == "reversed":
+                    uris.reverse()
                 ResourceTransformer(config=cfg).process(uris)
             else:
                 import xsdata.cli as C
@@ -715,6 +719,7 @@ def _class_info(obj):
         "ns": obj.target_namespace,
         "deps": sorted(set(obj.dependencies())),
         "depsAll": sorted(set(obj.dependencies(True))),
+        "location": obj.location,
     }
 
 
@@ -737,6 +742,10 @@ def install_tracing():
             if c.target_namespace not in nss:
                 nss.append(c.target_namespace)
         TRACE["nspkg"] = [[ns, ".".join(self.combine_ns_package(ns))] for ns in nss]
+        TRACE["nsparts"] = [[ns, list(self.combine_ns_package(ns))] for ns in nss]
+        from xsdata.models.enums import COMMON_SCHEMA_DIR
+
+        TRACE["common_dir"] = COMMON_SCHEMA_DIR.as_uri()
         try:
             real_run(self)
         finally:
@@ -792,13 +801,13 @@ def write_sources(schemas):
     return d
 
 
-def generate_full(route, schemas, options, shuffle=None):
+def generate_full(route, schemas, options, shuffle=None, uris_order="sorted"):
     """generate() + the trace.  Returns {"files", "digest", "trace"} or {"err": name, "msg"}"""
     install_tracing()
     TRACE.clear()
     srcdir = write_sources(schemas)
     try:
-        files = generate(route, srcdir, options, shuffle)
+        files = generate(route, srcdir, options, shuffle, uris_order)
     except Exception as e:  # noqa: BLE001
         msg = getattr(e, "message", None) or str(e)
         return {"err": type(e).__name__, "msg": msg[:200], "trace": dict(TRACE)}
